@@ -30,6 +30,22 @@ func plans(id, tier string) (Plan, bool) {
 	}
 	_ = pick
 	switch id {
+	case "C01":
+		var jobs []Job
+		ts := []string{"0.7", "0.8", "1"}
+		if th {
+			ts = []string{"0.7", "0.75", "0.8", "0.85", "0.9", "0.95", "0.99", "1"}
+		}
+		for _, t := range ts {
+			jobs = append(jobs, Job{Pkg: pkgV2, Harness: "c01_embedded", Params: "t=" + t, Shards: pick(4, 4)})
+		}
+		for _, t := range []string{"0.7", "0.8", "0.9", "1"} {
+			jobs = append(jobs, Job{Pkg: pkgV2, Harness: "c01_small", Params: "t=" + t, Shards: pick(1, 3)})
+		}
+		for _, t := range ts[:pick(2, 4)] {
+			jobs = append(jobs, Job{Pkg: pkgV2, Harness: "c01_sequences", Params: "t=" + t, Shards: pick(2, 8)})
+		}
+		return Plan{Level: "exploration", Jobs: jobs}, true
 	case "C20":
 		return Plan{Level: "model_checking", Jobs: []Job{
 			{Pkg: pkgSets, Harness: "c20_stringset", Shards: pick(4, 8)},
